@@ -467,7 +467,14 @@ pub struct WriteCase {
 }
 
 fn write_strategy() -> impl Strategy<Value = WriteCase> {
-    (shape_strategy(1, 4, 1, 5, 60), any::<u64>(), any::<bool>(), 0usize..=12, prop::collection::vec(1usize..=7, 1..5)).prop_map(|(shape, seed, npy, precision, per_call)| WriteCase {
+    (
+        prop_oneof![12 => shape_strategy(1, 4, 1, 5, 60).boxed(), 1 => prop_oneof![Just(vec![8192usize]), Just(vec![8193]), Just(vec![91, 91]), Just(vec![1025]), Just(vec![20_000])].boxed()],
+        any::<u64>(),
+        any::<bool>(),
+        0usize..=12,
+        prop_oneof![3 => prop::collection::vec(1usize..=7, 1..5), 1 => prop::collection::vec(prop_oneof![Just(4096usize), Just(1000), Just(65_535), 1usize..=7], 1..4)],
+    )
+        .prop_map(|(shape, seed, npy, precision, per_call)| WriteCase {
         shape,
         seed,
         npy,
@@ -496,7 +503,23 @@ fn eval_write(_ctx: &Ctx, case: &WriteCase) -> Verdict {
         Err(e) => fail!("writing through a short-writing writer failed: {e}"),
     }
     let mut surfaced = 0u64;
-    for o in 0..full.len() {
+    // every offset for small outputs; for large ones the first and last 300 offsets, block edges and a stride
+    let offsets: Vec<usize> = if full.len() <= 4000 {
+        (0..full.len()).collect()
+    } else {
+        let mut v: Vec<usize> = (0..300).chain(full.len() - 300..full.len()).collect();
+        for edge in [1024usize, 4096, 8192, 16_384, 32_768, 65_536, 131_072] {
+            for d in [0usize, 1, 2] {
+                if edge + d < full.len() {
+                    v.push(edge + d);
+                    v.push(edge - d - 1);
+                }
+            }
+        }
+        v.extend((300..full.len() - 300).step_by(997));
+        v
+    };
+    for o in offsets {
         let mut sw = ShortWriter {
             out: Vec::new(),
             per_call: case.per_call.clone(),
@@ -709,6 +732,23 @@ fn eval_spectrum_pipe(ctx: &Ctx, case: &SpectrumPipeCase) -> Verdict {
     Ok(Pass::new().nontrivial(case.first < 6).label(if case.text { "text" } else { "npy" }).label(args[0].to_string()))
 }
 
+fn eval_epipe(ctx: &Ctx, case: &DevFullCase) -> Verdict {
+    let dir = ctx.worker_dir(crate::engine::worker_id());
+    let n = case.cells;
+    let spec = crate::model::spec::Spec::new(vec![n], (0..n).map(|i| (i % 97) as f64 + 0.5).collect());
+    std::fs::write(dir.join("full.sfs"), crate::props::common::text_bytes_exact(&spec)).expect("write");
+    let bin = ctx.sfs_bin.to_string_lossy().into_owned();
+    // the reader takes 10 bytes and closes; the output is far larger than a pipe buffer, so the writer
+    // must meet EPIPE before it has delivered everything
+    let script = format!("\"{bin}\" {} 2>epipe.err | head -c 10 >/dev/null; echo ${{PIPESTATUS[0]}}", case.argv.join(" "));
+    let run = crate::cli::run_bin(ctx, std::path::Path::new("/bin/bash"), &["-c", &script], crate::cli::Input::Null, &dir, &[]);
+    let status = run.stdout_str().trim().to_string();
+    let stderr = std::fs::read_to_string(dir.join("epipe.err")).unwrap_or_default();
+    ensure!(!stderr.contains("panicked at"), "`sfs {} | head -c 10`: panic: {stderr}", case.argv.join(" "));
+    ensure!(status != "0", "`sfs {} | head -c 10`: the reader closed the pipe after 10 of > 100 000 bytes, yet sfs exited with status 0 (stderr {stderr:?})", case.argv.join(" "));
+    Ok(Pass::new().nontrivial(true).label(case.argv[0].clone()))
+}
+
 pub fn check(ctx: &Ctx) -> Check {
     let parts: Vec<Box<dyn Part>> = vec![
         Box::new(RandomPart {
@@ -727,7 +767,7 @@ pub fn check(ctx: &Ctx) -> Check {
         }),
         Box::new(RandomPart {
             name: "short-writes-and-write-faults",
-            rule: "write::Builder::write (text and npy) into a writer accepting 1..7 bytes per call: identical bytes; the writer failing after o accepted bytes for EVERY offset o: write must return Err",
+            rule: "write::Builder::write (text and npy; one case in thirteen has 1 025..20 000 values, i.e. output above 8 KiB / 64 KiB) into a writer accepting 1..7 (or 1000 / 4096 / 65 535) bytes per call: identical bytes; the writer failing after o accepted bytes for EVERY offset o (large outputs: first and last 300 offsets, block edges, a stride): write must return Err",
             cases: ctx.tier.pick(300, 4000),
             strategy: Box::new(|| write_strategy().boxed()),
             eval: Box::new(eval_write),
@@ -745,6 +785,19 @@ pub fn check(ctx: &Ctx) -> Check {
             cases: ctx.tier.pick(60, 600),
             strategy: Box::new(|| spectrum_pipe_strategy().boxed()),
             eval: Box::new(eval_spectrum_pipe),
+        }),
+        Box::new(crate::engine::EnumPart {
+            name: "stdout-closed-pipe",
+            rule: "view (text and npy), fold with > 100 000 bytes of output piped into a reader that closes after 10 bytes (EPIPE): the exit status must be non-zero (partial data was delivered), no panic",
+            exhaustive: false,
+            cases: Box::new(|_| {
+                let mut v = Vec::new();
+                for argv in [vec!["view", "full.sfs"], vec!["view", "-O", "npy", "full.sfs"], vec!["fold", "--fill", "zero", "full.sfs"], vec!["view", "--precision", "15", "full.sfs"]] {
+                    v.push(DevFullCase { argv: argv.into_iter().map(String::from).collect(), cells: 40_000 });
+                }
+                v
+            }),
+            eval: Box::new(eval_epipe),
         }),
         Box::new(crate::engine::EnumPart {
             name: "stdout-enospc",
